@@ -81,7 +81,7 @@ theorem fApply_not_eval (a : AMgr) (hi : AInv off a) (op : String) (hc : docConn
 /-- what `__le__` needs of the disjunction in the current mode: it returns, it is one of the
 operations that keep the invariant, and its result means `v ∨ w` by name -/
 def OrOk (off : Bool) : Prop :=
-  ∀ (b : AMgr), AInv off b → ∀ (j1 j2 : Nat) (v w : Int), b.handles[j1]? = some v →
+  ∀ (b : AMgr), AInv off b → Two off b → ∀ (j1 j2 : Nat) (v w : Int), b.handles[j1]? = some v →
     b.handles[j2]? = some w →
     CoreKeepsAt off b.m (apply "or" v (some w) none) ∧
     ∃ r m', apply "or" v (some w) none b.m = (.ok r, m') ∧ m'.tbl.Mem r ∧
@@ -115,7 +115,7 @@ theorem eq_iff_denN {t : Tbl} (hw : WFU t) (hO : OrderOK t) (u v : Int) (hu : t.
     exact (canonical t hw u v hu hv).mp (den_of_denN_auto hw.toWF hO u v hu hv h)
 
 /-- `f <= g` returns, and returns the node of `g | ~f` compared with the terminal -/
-theorem fLe_eval (hor : OrOk off) (a : AMgr) (hi : AInv off a) (hs ho : Nat) (u v : Int)
+theorem fLe_eval (hor : OrOk off) (a : AMgr) (hi : AInv off a) (h2 : Two off a) (hs ho : Nat) (u v : Int)
     (hu : a.handles[hs]? = some u) (hv : a.handles[ho]? = some v) :
     ∃ (b : Bool) (a' : AMgr), fLe hs ho a = (.ok b, a') ∧
       (b = true ↔ ∀ σ, denN a.m.tbl u σ = true → denN a.m.tbl v σ = true) := by
@@ -130,7 +130,7 @@ theorem fLe_eval (hor : OrOk off) (a : AMgr) (hi : AInv off a) (hs ho : Nat) (u 
   have hv2 : a2.handles[ho]? = some v := by rw [hh2, getElem?_insert_ne _ _ _ _ h1o]; exact hv
   -- t2 = g | t1
   obtain ⟨t2, hf2, hn2⟩ := freshH_spec a2
-  obtain ⟨hk, r, m3, he3, hr3, hd3⟩ := hor a2 i2 ho t1 v (-u) hv2 hl2
+  obtain ⟨hk, r, m3, he3, hr3, hd3⟩ := hor a2 i2 (h2.of_tbl ht2) ho t1 v (-u) hv2 hl2
   have h3 := liftM_eval (a := a2) he3
   obtain ⟨i3, _, _⟩ := liftM_total a2 hk i2 _ _ h3
   obtain ⟨a4, hw4, i4, ht4, hh4, _⟩ :=
@@ -190,7 +190,7 @@ theorem fLe_eval (hor : OrOk off) (a : AMgr) (hi : AInv off a) (hs ho : Nat) (u 
 
 /-- every binary propositional alias, in both modes: the core operation returns, keeps the
 invariant, and its result is the documented connective of the operands BY NAME -/
-theorem applyBin_ok : ∀ (off : Bool) (b : AMgr), AInv off b → ∀ (op : String) (c : Conn),
+theorem applyBin_ok : ∀ (off : Bool) (b : AMgr), AInv off b → Two off b → ∀ (op : String) (c : Conn),
     docConn op = some c → c.arity = 2 → c ≠ .forall_ → c ≠ .exists_ →
     Gen.allOps.contains op = true → ∀ (j1 j2 : Nat) (v w : Int), b.handles[j1]? = some v →
     b.handles[j2]? = some w →
@@ -198,10 +198,10 @@ theorem applyBin_ok : ∀ (off : Bool) (b : AMgr), AInv off b → ∀ (op : Stri
     ∃ r m', apply op v (some w) none b.m = (.ok r, m') ∧ m'.tbl.Mem r ∧
       ∀ σ, denN m'.tbl r σ = c.eval (denN b.m.tbl v σ) (denN b.m.tbl w σ) false
   | true => by
-    intro b hb op c hc h2 hq1 hq2 hall j1 j2 v w hv hw
+    intro b hb _ op c hc h2 hq1 hq2 hall j1 j2 v w hv hw
     refine ⟨(apply_keepsOff op v (some w) none).at b.m, ?_⟩
     obtain ⟨r, m', he, _, _, hr, hfr, hd⟩ :=
-      apply_binary_spec b.m hb.inv (hb.mode.1 rfl) op c hc h2 hq1 hq2 hall v w
+      apply_binary_spec b.m hb.inv (hb.mode rfl) op c hc h2 hq1 hq2 hall v w
         (hb.hmem j1 v hv) (hb.hmem j2 w hw)
     refine ⟨r, m', he, hr, fun σ => ?_⟩
     have hl : m'.tbl.lift σ = b.m.tbl.lift σ := by
@@ -210,21 +210,21 @@ theorem applyBin_ok : ∀ (off : Bool) (b : AMgr), AInv off b → ∀ (op : Stri
     rw [hd, hl]
     rfl
   | false => by
-    intro b hb op c hc h2 hq1 hq2 hall j1 j2 v w hv hw
-    have h := C09_apply_binary_transparent (hext b) b.m hb.minv.dynInv op c hc h2 hq1 hq2 hall
+    intro b hb ht op c hc h2 hq1 hq2 hall j1 j2 v w hv hw
+    have h := C09_apply_binary_transparent (hext b) b.m (hb.minv.dynInv (ht rfl)) op c hc h2 hq1 hq2 hall
       v w (heldX_of_handle b hv) (heldX_of_handle b hw)
     refine ⟨keepsAtDyn_of b hb h, ?_⟩
     obtain ⟨r, m', he, hp⟩ := h
     exact ⟨r, m', he, hp.doc.1, fun σ => hp.doc.2 σ⟩
 
-theorem orOk_all (off : Bool) : OrOk off := fun b hb j1 j2 v w hv hw =>
-  applyBin_ok off b hb "or" .or (by decide) (by decide) (by decide) (by decide) (by decide)
+theorem orOk_all (off : Bool) : OrOk off := fun b hb ht j1 j2 v w hv hw =>
+  applyBin_ok off b hb ht "or" .or (by decide) (by decide) (by decide) (by decide) (by decide)
     j1 j2 v w hv hw
 
 /-- `f.<op>(g)` for a binary propositional alias, both modes: returns; the new `Function`
 sits on the node the core operation returned; that node means the documented connective of
 the operands by name -/
-theorem fApply_binary_value (a : AMgr) (hi : AInv off a) (op : String) (c : Conn)
+theorem fApply_binary_value (a : AMgr) (hi : AInv off a) (ht : Two off a) (op : String) (c : Conn)
     (hc : docConn op = some c) (h2 : c.arity = 2) (hq1 : c ≠ .forall_) (hq2 : c ≠ .exists_)
     (hall : Gen.allOps.contains op = true) (hs ho h : Nat)
     (hf : a.handles.contains h = false) (u v : Int)
@@ -234,7 +234,7 @@ theorem fApply_binary_value (a : AMgr) (hi : AInv off a) (op : String) (c : Conn
       (∃ m1, apply op u (some v) none a.m = (.ok r, m1) ∧ a'.m.tbl = m1.tbl) ∧
       a'.m.tbl.Mem r ∧
       ∀ σ, denN a'.m.tbl r σ = c.eval (denN a.m.tbl u σ) (denN a.m.tbl v σ) false := by
-  obtain ⟨hk, r, m1, he, hr, hd⟩ := applyBin_ok off a hi op c hc h2 hq1 hq2 hall hs ho u v hu hv
+  obtain ⟨hk, r, m1, he, hr, hd⟩ := applyBin_ok off a hi ht op c hc h2 hq1 hq2 hall hs ho u v hu hv
   obtain ⟨a', hx, ht, hh⟩ := fApply_eval a hi op hs ho h hf u v r m1 hu hv hk he hr
   exact ⟨r, a', hx, hh, ⟨m1, he, ht⟩, by rw [ht]; exact hr, fun σ => by rw [ht]; exact hd σ⟩
 
@@ -262,12 +262,12 @@ theorem fLt_keepsAll : ∀ off (hs ho : Nat), AKeeps0 off (fLt hs ho)
   | false, hs, ho => fLt_keepsDynTotal hs ho
 
 /-- `f < g` returns `f <= g and f != g` -/
-theorem fLt_eval (a : AMgr) (hi : AInv off a) (hs ho : Nat) (u v : Int)
+theorem fLt_eval (a : AMgr) (hi : AInv off a) (h2 : Two off a) (hs ho : Nat) (u v : Int)
     (hu : a.handles[hs]? = some u) (hv : a.handles[ho]? = some v) :
     ∃ (b : Bool) (a' : AMgr), fLt hs ho a = (.ok b, a') ∧
       (b = true ↔ (∀ σ, denN a.m.tbl u σ = true → denN a.m.tbl v σ = true) ∧
         ¬ ∀ σ, denN a.m.tbl u σ = denN a.m.tbl v σ) := by
-  obtain ⟨b, a1, he, hb⟩ := fLe_eval (orOk_all off) a hi hs ho u v hu hv
+  obtain ⟨b, a1, he, hb⟩ := fLe_eval (orOk_all off) a hi h2 hs ho u v hu hv
   obtain ⟨_, hsame, _⟩ := fLe_keepsAll off hs ho a hi _ _ he
   have hq := eq_iff_denN hi.inv.wf hi.order u v (hi.hmem hs u hu) (hi.hmem ho v hv)
   cases b with
@@ -393,12 +393,6 @@ theorem fApply_keepsAll : ∀ (off : Bool) (op : String) (hs : Nat) (ho : Option
     AKeeps off h (fApply op hs ho h)
   | true, op, hs, ho, h => fApply_keepsOff op hs ho h
   | false, op, hs, ho, h => fApply_keepsDynTotal op hs ho h
-
-/-- a state of the mode "not enabled" with at least two variables is a state of the mode
-"possibly enabled" -/
-theorem AInv.toDyn {a : AMgr} (h : AInv true a) (h2 : 2 ≤ a.m.nvars) : AInv false a :=
-  ⟨⟨h.minv.inv, h.minv.order, h.minv.counts, h.minv.ctx, h.minv.sched, h.minv.roots,
-    ⟨fun hf => Bool.noConfusion hf, fun _ => h2⟩⟩, h.hmem⟩
 
 /-- a stored non-terminal reference has a node -/
 theorem node_of_mem {t : Tbl} {u : Int} (hm : t.Mem u) (h1 : u.natAbs ≠ 1) :
